@@ -1,0 +1,46 @@
+//go:build verif
+
+// Contracts for package evidence, checked by /verif/govc (comment-only; see /verif/DESIGN.md).
+package evidence
+
+// ---------------------------------------------------------------- C19: accountability
+
+// VerifyDuplicateVote accepts only real double-signing by a member of the given set, with the stated power.
+//@ func VerifyDuplicateVote(e *types.DuplicateVoteEvidence, chainID string, valSet *types.ValidatorSet) (err error)
+//@   for C19
+//@   requires e != nil && e.VoteA != nil && e.VoteB != nil && types.wfVals(valSet)
+//@   modifies valSet.totalVotingPower
+//@   ensures [memberOfSet] err == nil ==> types.indexOf(valSet.Validators, e.VoteA.ValidatorAddress, len(valSet.Validators)) >= 0
+//@   ensures [sameHeightRoundType] err == nil ==> e.VoteA.Height == e.VoteB.Height && e.VoteA.Round == e.VoteB.Round && e.VoteA.Type == e.VoteB.Type
+//@   ensures [sameValidator] err == nil ==> e.VoteA.ValidatorAddress == e.VoteB.ValidatorAddress
+//@   ensures [differentBlocks] err == nil ==> !(e.VoteA.BlockID == e.VoteB.BlockID)
+//@   ensures [powerMatches] err == nil ==> e.ValidatorPower == valSet.Validators[types.indexOf(valSet.Validators, e.VoteA.ValidatorAddress, len(valSet.Validators))].VotingPower && e.TotalVotingPower == types.sumPow(valSet.Validators, len(valSet.Validators))
+//@   ensures [bothSignedByThatValidator] err == nil ==> types.sigOK(e.VoteA.ValidatorAddress, crypto.keccak(types.voteSignContent(chainID, e.VoteA)), content(e.VoteA.Signature)) && types.sigOK(e.VoteA.ValidatorAddress, crypto.keccak(types.voteSignContent(chainID, e.VoteB)), content(e.VoteB.Signature))
+
+// The pool's look-ups are functions of (pool, evidence) for the duration of one call (nothing in
+// AddEvidence/CheckEvidence writes the evidence DB between the look-up and the insert).
+//@ spec func evPending(p *Pool, ev types.Evidence) bool
+//@ spec func evCommitted(p *Pool, ev types.Evidence) bool
+//@ spec func evVerified(p *Pool, ev types.Evidence) bool
+//@ trusted func (evpool *Pool) isPending(evidence types.Evidence) (r bool)
+//@   ensures r == evPending(evpool, evidence)
+//@ trusted func (evpool *Pool) isCommitted(evidence types.Evidence) (r bool)
+//@   ensures r == evCommitted(evpool, evidence)
+//@ trusted func (evpool *Pool) verify(evidence types.Evidence) (err error)
+//@   ensures err == nil ==> evVerified(evpool, evidence)
+//@ trusted func (evpool *Pool) addPendingEvidence(ev types.Evidence) (err error)
+//@   modifies *
+
+// Evidence from a peer is stored only if it is neither pending nor committed and verifies.
+//@ func (evpool *Pool) AddEvidence(ev types.Evidence) (err error)
+//@   for C19
+//@   requires evpool != nil
+//@   modifies *
+//@   atcall Pool.addPendingEvidence requires [onlyNewVerified] !evPending(evpool, ev) && !evCommitted(evpool, ev) && evVerified(evpool, ev)
+
+// Evidence in a proposed block: everything not already pending must be uncommitted and verify.
+//@ func (evpool *Pool) CheckEvidence(evList types.EvidenceList) (err error)
+//@   for C19
+//@   requires evpool != nil
+//@   modifies *
+//@   atcall Pool.addPendingEvidence requires [onlyNewVerified] !evPending(evpool, ev) && !evCommitted(evpool, ev) && evVerified(evpool, ev)
